@@ -50,7 +50,14 @@ func genC09(t *rapid.T) clCase {
 			na = rapid.IntRange(0, 6).Draw(t, "nappend")
 		}
 		for i := 0; i < na; i++ {
-			c.Ops = append(c.Ops, clOp{Op: "append", Msgs: genBatch(t, false, 3)})
+			b := genBatch(t, false, 3)
+			if rapid.IntRange(0, 5).Draw(t, "skew") == 0 {
+				// a new leader whose clock is behind: the timestamps go back, so a
+				// fresh segment can precede an expired one
+				b[0].EB = true
+				b[0].DT = -int64(rapid.SampledFrom([]int{1, 5, 40, 900}).Draw(t, "skewby"))
+			}
+			c.Ops = append(c.Ops, clOp{Op: "append", Msgs: b})
 		}
 		if rapid.IntRange(0, 5).Draw(t, "reopen") == 0 {
 			c.Ops = append(c.Ops, clOp{Op: "reopen"})
